@@ -668,7 +668,8 @@ def _run_property(pid, tier, seed, logdir):
 
     def pool_job(step, name):
         t0 = time.time()
-        ex = Exec(prog, S, en, max_unroll=step.pool_size + 3)
+        # loops: one iteration per pool address (free-address scan) and one per stored row of the client (binding walk), plus slack
+        ex = Exec(prog, S, en, max_unroll=max(step.pool_size, step.n_rows) + 3)
         try:
             fn = po.find("allocate_address", 7)
             paths = ex.explore(lambda e: e.call_fn(fn, props_pool.setup_step(e, step)))
@@ -700,7 +701,7 @@ def _run_property(pid, tier, seed, logdir):
                 name=name, engine="mirsym", functions=sorted(f.split("::")[-1] for f in ex.encoded_fns),
                 bounds=f"ONE allocate_address step from an arbitrary lease table of <= {step.n_rows - 1} rows (all columns symbolic, invariant assumed), "
                        f"pool of {step.pool_size} symbolic distinct addresses, {'symbolic requested address' if step.with_request else 'no requested address'}, "
-                       f"symbolic client, symbolic min<=max lease (<= 366 d), symbolic non-decreasing clock; iterator loops unrolled {step.pool_size + 3}x with unwinding check; inductive over histories",
+                       f"symbolic client, symbolic min<=max lease (<= 366 d), symbolic non-decreasing clock; loops unrolled {max(step.pool_size, step.n_rows) + 3}x with unwinding check; inductive over histories",
                 oracle=ORACLE[pid], stubs=common_stubs + sorted(ex.used_summaries), tier=tier, **_vr(failed, ex),
                 queries=ex.queries, solver_time_s=round(ex.solver_time, 2), failed=_dedup(failed), paths=len(paths), path_kinds=sigs,
                 claims_checked=nclaims, wall_s=round(time.time() - t0, 1), sql=sorted(set(s for p in paths for s in p[3].get("sql", [])))[:8])
